@@ -225,19 +225,7 @@ def is_marked(obj, marking=None, selectors=None, inherited=False, descendants=Fa
     )
 
     if inherited:
-        granular_marks = granular_markings.get_markings(obj, selectors)
-        object_marks = object_markings.get_markings(obj)
-
-        if granular_marks:
-            result = granular_markings.is_marked(
-                obj,
-                granular_marks,
-                selectors,
-                inherited,
-                descendants,
-            )
-
-        result = result or object_markings.is_marked(obj, object_marks)
+        result = result or object_markings.is_marked(obj, marking)
 
     return result
 
